@@ -21,7 +21,7 @@ def judge_runs(rep, traces, wd, name='MachineTrace'):
         with open(path, 'w') as f:
             json.dump(slim, f, separators=(',', ':'))
         r = tlc.run(os.path.join(tlc.SPEC, 'z80'), 'MachineTrace', 'MachineTrace.cfg', env={'CASES': path},
-                    tag='MachineTrace', timeout=3000, heap='16g')
+                    tag='MachineTrace', timeout=7200, heap='16g')
         tlc.check_machinery(r, 'MachineTrace')
         rep.add_tlc(r, name, traces=len(part))
         failed = {}
@@ -48,7 +48,7 @@ def judge_runs128(rep, traces, wd):
         with open(path, 'w') as f:
             json.dump(slim, f, separators=(',', ':'))
         r = tlc.run(os.path.join(tlc.SPEC, 'z80'), 'Machine128', 'Machine128.cfg', env={'CASES': path},
-                    tag='Machine128', timeout=3000, heap='16g')
+                    tag='Machine128', timeout=7200, heap='16g')
         tlc.check_machinery(r, 'Machine128')
         rep.add_tlc(r, 'Machine128', traces=len(part))
         failed = {}
@@ -69,9 +69,9 @@ def run(tier):
     wd = workdir('c06')
     sd = seed()
     cbuild.build()
-    nprogs, steps = (30, 120) if tier == 'quick' else (420, 400)
+    nprogs, steps = (30, 120) if tier == 'quick' else (160, 300)
     args = [(sd * 977 + k, nprogs, steps) for k in range(16)]
-    n128, steps128 = (10, 100) if tier == 'quick' else (140, 300)
+    n128, steps128 = (10, 100) if tier == 'quick' else (60, 250)
     args128 = [(sd * 1201 + 5 + k, n128, steps128) for k in range(16)]
     with mp.get_context('fork').Pool(16) as pool:
         parts128 = pool.map_async(progdrv.lockstep128, args128)
